@@ -19,7 +19,7 @@ import math
 from decimal import Decimal
 from fractions import Fraction
 
-from common import Coverage, Driver, rng, violation
+from common import Coverage, Driver, coq_eval, rng, violation
 from ref import stepgrid
 
 INT_FORMATS = ["uint8", "uint16", "uint32", "uint64", "int"]
@@ -406,6 +406,108 @@ def py_op(name, prec, mode, a, b):
             return "none"
 
 
+# ---------------------------------------------------------------- extraction cross-check
+def _coq_dec(t):
+    s, c, e = t.split(":")
+    return f"(mkDec {'true' if s == '1' else 'false'} {int(c)}%N ({int(e)})%Z)"
+
+
+def _coq_opt(t):
+    return "None" if t == "-" else f"(Some {_coq_dec(t)})"
+
+
+_COQ_FMT = {"bool": "FBool", "uint8": "FUint8", "uint16": "FUint16", "uint32": "FUint32", "uint64": "FUint64", "int": "FInt",
+            "float": "FFloat"}
+_COQ_MODE = {"up": "HalfUp", "even": "HalfEven"}
+
+
+def coq_request(line):
+    """the Gallina term that ocaml/drv_c14.ml evaluates for this request line, wrapped in a show_* helper (-> list Z)"""
+    t = line.split(" ")
+    if t[0] == "cv":
+        _, f, mn, mx, st, r, sv = t
+        rd = "RNonFinite" if r == "N" else "RReject" if r == "R" else f"(RFin {_coq_dec(r[2:])})"
+        sl = "[]" if sv == "-" else "[" + "; ".join(f"{int(x)}%N" for x in sv.split(",")) + "]"
+        return f"show_r (check_convert {_COQ_FMT[f]} {_coq_opt(mn)} {_coq_opt(mx)} {_coq_opt(st)} {sl} {rd})"
+    _, name, prec, mode, *args = t
+    cx = f"(mkCtx {int(prec)}%N {_COQ_MODE[mode]})"
+    a = [_coq_dec(x) for x in args]
+    if name in ("add", "sub", "mul"):
+        return f"show_d (d{name} {cx} {a[0]} {a[1]})"
+    if name == "div":
+        return f"show_o (ddiv {cx} {a[0]} {a[1]})"
+    if name == "fix":
+        return f"show_d (dfix {cx} {a[0]})"
+    if name == "toint":
+        return f"show_d (to_integral {_COQ_MODE[mode]} {a[0]})"
+    if name == "cmp":
+        return f"show_c (dcompare {a[0]} {a[1]})"
+    if name == "int":
+        return f"[3; dec_to_Z {a[0]}]"
+    raise ValueError(line)
+
+
+def answer_digest(ans):
+    """a raw driver answer as the list of integers the show_* helpers produce (the full content of the answer)"""
+    t = ans.split(" ")
+    d = lambda tok: [int(x) for x in tok.split(":")]          # noqa: E731
+    if t[0] == "ok" and t[1] == "int":
+        return [10, int(t[2])]
+    if t[0] == "ok" and t[1] == "dec":
+        return [11] + d(t[2])
+    if t[0] == "dec":
+        return [0] + d(t[1])
+    if t[0] == "cmp":
+        return [2, {"lt": -1, "eq": 0, "gt": 1}[t[1]]]
+    if t[0] == "int":
+        return [3, int(t[1])]
+    return {"err format": [12], "crash": [13], "fuel": [14], "none": [1]}.get(ans, [99])
+
+
+def crosscheck_sample(pairs):
+    """deterministic sample of the run's (request line, raw driver answer) stream: the middle element of every
+    (request kind, format / operation, rounding mode of fix / toint, answer class) bucket, small literals only"""
+    buckets = {}
+    for line, ans in pairs:
+        if len(line) > 900:
+            continue
+        t, a = line.split(" "), ans.split(" ")
+        if t[0] == "cv":
+            key = ("cv", t[1], " ".join(a[:2]))
+        else:
+            rounds = t[1] in ("fix", "toint")
+            key = ("op", t[1], t[3] if rounds else "", a[1] if a[0] == "cmp" else a[0], rounds and a[1] != t[4])
+        buckets.setdefault(key, []).append((line, ans))
+    for key in [k for k in buckets if k[0] == "op" and k[1] in ("fix", "toint") and not k[4]]:
+        if key[:4] + (True,) in buckets:          # prefer the requests where digits were actually rounded away
+            del buckets[key]
+    out = [b[len(b) // 2] for _, b in sorted(buckets.items())]
+    return out[:30]
+
+
+def vm_crosscheck(ctx, sample):
+    """Evaluate the sampled requests with vm_compute inside Coq (same Gallina functions as ocaml/drv_c14.ml calls) and
+    compare with what the extracted OCaml driver answered.  -> (requests, disagreements, [disagreeing lines])"""
+    import re
+    body = ["From Coq Require Import List NArith ZArith.", "From AHK Require Import Lib.Res Model.Convert.",
+            "Import ListNotations.", "Open Scope Z_scope.",
+            "Definition show_d (d : dec) : list Z := [0; if dneg d then 1 else 0; Z.of_N (dcoef d); dexp d].",
+            "Definition show_o (o : option dec) : list Z := match o with Some d => show_d d | None => [1] end.",
+            "Definition show_c (c : comparison) : list Z := [2; match c with Lt => -1 | Eq => 0 | Gt => 1 end].",
+            "Definition show_r (r : res cerr cval) : list Z := match r with Ok (VInt z) => [10; z] "
+            "| Ok (VDec d) => 11 :: tl (show_d d) | Err FormatError => [12] | Crash => [13] | OutOfFuel => [14] end."]
+    for line, _ in sample:
+        body.append(f"Eval vm_compute in ({coq_request(line)}).")
+    out = coq_eval(ctx["verif"], "C14", "crosscheck", "\n".join(body) + "\n", timeout=120)
+    blocks = out.split("= ")[1:]
+    bad = []
+    for i, (line, ans) in enumerate(sample):
+        got = [int(x) for x in re.findall(r"-?\d+", blocks[i].rsplit(":", 1)[0])] if i < len(blocks) else None
+        if got != answer_digest(ans):
+            bad.append(dict(request=line, driver=ans, vm_compute=got))
+    return len(sample), len(bad), bad
+
+
 # ---------------------------------------------------------------- run
 def run(ctx):
     tier, seed = ctx["tier"], ctx["seed"]
@@ -434,8 +536,12 @@ def run(ctx):
         streams = [("replay", [replay_case])]
     else:
         streams = [("grid", gen_grid(tier)), ("num", gen_num(tier, rng(seed, "c14num"))), ("bad", gen_bad(tier, rng(seed, "c14bad")))]
+    xpairs = []          # (request line, raw driver answer) of the whole run, for the vm_compute cross-check
     for sname, cases in streams:
-        model = [model_canon(a) for a in drv.batch([model_line(*c) for c in cases])]
+        lines = [model_line(*c) for c in cases]
+        raw = drv.batch(lines)
+        xpairs += zip(lines, raw)
+        model = [model_canon(a) for a in raw]
         for idx, (case, m) in enumerate(zip(cases, model)):
             fmt, mn, mx, st, val = case
             got = impl.run(*case)
@@ -475,7 +581,9 @@ def run(ctx):
                                 "<1e6" if abs(stepgrid.reading(val)) < 10 ** 6 else "<2^32" if abs(stepgrid.reading(val)) < 2 ** 32 else ">=2^32"))
     # ---- the decimal operations one by one
     ops = gen_ops(tier, rng(seed, "c14ops")) if replay_case is None else []
-    ans = drv.batch([f"op {n} {p} {md} {dtok(a)}" + ("" if n in ("fix", "toint", "int") else " " + dtok(b)) for n, p, md, a, b in ops])
+    oplines = [f"op {n} {p} {md} {dtok(a)}" + ("" if n in ("fix", "toint", "int") else " " + dtok(b)) for n, p, md, a, b in ops]
+    ans = drv.batch(oplines)
+    xpairs += zip(oplines, ans)
     for (n, p, md, a, b), m in zip(ops, ans):
         want = py_op(n, p, md, a, b)
         if want != m:
@@ -483,6 +591,13 @@ def run(ctx):
                 stream="ops", case=dict(op=n, prec=p, mode=md, a=str(a), b=str(b)), impl=want, model=m,
                 broken="model of Python's decimal arithmetic (Model/Convert.v)")
         cov.case("op" + repr((n, p, md, a, b)), True, stream="ops", op=n)
+    # ---- extracted driver vs vm_compute on a sample of the same requests
+    if replay_case is None:
+        n_x, bad_x, detail_x = vm_crosscheck(ctx, crosscheck_sample(xpairs))
+        cov.extra["vm_compute_crosscheck"] = dict(requests=n_x, disagreements=bad_x)
+        if bad_x:
+            add("extraction-vs-vm_compute", f"{bad_x} of {n_x} sampled requests: extracted driver and vm_compute disagree "
+                                            f"(first: {detail_x[0]})", False, broken="extraction / ocaml driver glue", detail=detail_x[:5])
     for v in viols:
         v["payload"]["occurrences"] = seen_keys[v["key"]]
     cov.extra["exhaustive"] = True
